@@ -15,8 +15,12 @@
 #include "QXmppMixInvitation.h"
 #include "QXmppOutOfBandUrl.h"
 #include "QXmppPubSubAffiliation.h"
+#include "QXmppResultSet.h"
 #include "QXmppTrustMessageElement.h"
 #include "QXmppTrustMessageKeyOwner.h"
+#include "QXmppUtils.h"
+#include <QDateTime>
+#include <QTimeZone>
 #include "QXmppIbbIq.h"
 #include "QXmppSasl_p.h"
 #include "QXmppStanza.h"
@@ -187,7 +191,8 @@ static std::string canonWriter(const QByteArray &xml)
 
 // ---------------------------------------------------------------- value lists (same text form as the driver's showVals)
 struct Val {
-    char kind = 'A';  // s n b o A R L
+    char kind = 'A';  // s n b o d A R L
+    int dt[7] = { 0, 0, 0, 0, 0, 0, 0 };  // kind d with has: year month day hour minute second msec (UTC)
     QString s; quint64 n = 0; bool b = false; bool has = false;
     std::vector<Val> items;
 };
@@ -199,6 +204,12 @@ static std::string showVal(const Val &v)
     case 'n': return "n" + std::to_string(v.n);
     case 'b': return v.b ? "b1" : "b0";
     case 'o': return v.has ? "o" + std::to_string(v.n) : "o-";
+    case 'd': {
+        if (!v.has) return "d-";
+        std::string o = "d";
+        for (int i = 0; i < 7; i++) { if (i) o += "/"; o += std::to_string(v.dt[i]); }
+        return o;
+    }
     case 'R': return "R( " + showVals(v.items) + " )";
     case 'L': return "L( " + showVals(v.items) + " )";
     default: return "A";
@@ -224,6 +235,12 @@ static bool parseVals(const std::vector<std::string> &t, size_t &i, std::vector<
         else if (k == "b0" || k == "b1") { v.kind = 'b'; v.b = k == "b1"; i++; }
         else if (k == "o-") { v.kind = 'o'; v.has = false; i++; }
         else if (k[0] == 'o') { v.kind = 'o'; v.has = true; v.n = strtoull(k.c_str() + 1, nullptr, 10); i++; }
+        else if (k == "d-") { v.kind = 'd'; v.has = false; i++; }
+        else if (k[0] == 'd') {
+            v.kind = 'd'; v.has = true;
+            if (sscanf(k.c_str() + 1, "%d/%d/%d/%d/%d/%d/%d", &v.dt[0], &v.dt[1], &v.dt[2], &v.dt[3], &v.dt[4], &v.dt[5], &v.dt[6]) != 7) return false;
+            i++;
+        }
         else return false;
         out.push_back(v);
     }
@@ -242,6 +259,22 @@ static Val vN(quint64 n) { Val v; v.kind = 'n'; v.n = n; return v; }
 static Val vB(bool b) { Val v; v.kind = 'b'; v.b = b; return v; }
 static Val vO(bool has, quint64 n = 0) { Val v; v.kind = 'o'; v.has = has; v.n = n; return v; }
 static Val vA() { return Val(); }
+// a QDateTime as the class can print it: nothing for an invalid one or one datetimeToString() renders as ""
+static Val vD(const QDateTime &t)
+{
+    Val v; v.kind = 'd';
+    if (!t.isValid() || QXmppUtils::datetimeToString(t).isEmpty()) return v;
+    QDateTime u = t.toUTC();
+    v.has = true;
+    v.dt[0] = u.date().year(); v.dt[1] = u.date().month(); v.dt[2] = u.date().day();
+    v.dt[3] = u.time().hour(); v.dt[4] = u.time().minute(); v.dt[5] = u.time().second(); v.dt[6] = u.time().msec();
+    return v;
+}
+static QDateTime dateOf(const Val &v)
+{
+    if (!v.has) return QDateTime();
+    return QDateTime(QDate(v.dt[0], v.dt[1], v.dt[2]), QTime(v.dt[3], v.dt[4], v.dt[5], v.dt[6]), Qt::UTC);
+}
 static Val vR(std::vector<Val> items) { Val v; v.kind = 'R'; v.items = std::move(items); return v; }
 static Val vL(std::vector<Val> items) { Val v; v.kind = 'L'; v.items = std::move(items); return v; }
 using Vals = std::vector<Val>;
@@ -288,10 +321,15 @@ template<class T> static QByteArray serPayload(const Open<T> &o)
     return out;
 }
 
+// set by a class's run() when the parsed object is in a state the schema does not describe (the document is then
+// left out of the correspondence; the model-independent oracles still run on it)
+static bool g_outsideModel = false;
+
 struct ClassEntry {
     std::string name;
     bool iqPayload = false;
-    bool streamChild = false;  // parsed as a child of <stream:stream> (prefix `stream` bound there)
+    bool streamChild = false;
+    QString skipRootTag;       // documents whose root element has this name are outside the class's model  // parsed as a child of <stream:stream> (prefix `stream` bound there)
     std::vector<std::string> fieldNames;
     // real parse + serialize + field report; false = rejected by the class's own type check
     std::function<bool(const QDomElement &, QByteArray &, Vals &)> run;
@@ -421,6 +459,29 @@ static std::vector<ClassEntry> classTable()
         [](QXmppIbbCloseIq &o, const Vals &v) { o.setSid(v.at(0).s); }));
     // ---- Base64 bodies
     auto vBytes = [](const QByteArray &b) { return vS(QString::fromLatin1(b.constData(), b.size())); };  // keeps NUL
+    auto fastTokenVals = [](const FastToken &o) { return Vals { vD(o.expiry), vS(o.token) }; };
+    auto fastTokenOf = [](const Vals &v) { return FastToken { dateOf(v.at(0)), v.at(1).s }; };
+    t.push_back(nonza<FastToken>("FastToken", { "expiry", "token" }, fastTokenVals, fastTokenOf));
+    auto bound2Vals = [](const Bind2Bound &o) { return Vals { o.smFailed ? vR(smFailedVals(*o.smFailed)) : vA(), o.smEnabled ? vR(smEnabledVals(*o.smEnabled)) : vA() }; };
+    auto bound2Of = [](const Vals &v) { Bind2Bound o; if (v.at(0).kind == 'R') o.smFailed = smFailedOf(v.at(0).items); if (v.at(1).kind == 'R') o.smEnabled = smEnabledOf(v.at(1).items); return o; };
+    t.push_back(nonza<Sasl2::Success>("Sasl2Success", { "additionalData", "authorizationIdentifier", "bound", "smResumed", "smFailed", "token" },
+        [=](const Sasl2::Success &o) {
+            return Vals { o.additionalData ? vR({ vBytes(*o.additionalData) }) : vA(), vR({ vS(o.authorizationIdentifier) }),
+                          o.bound ? vR(bound2Vals(*o.bound)) : vA(),
+                          o.smResumed ? vR({ vN(o.smResumed->h), vS(o.smResumed->previd) }) : vA(),
+                          o.smFailed ? vR(smFailedVals(*o.smFailed)) : vA(),
+                          o.token ? vR(fastTokenVals(*o.token)) : vA() };
+        },
+        [=](const Vals &v) {
+            Sasl2::Success o;
+            if (v.at(0).kind == 'R') o.additionalData = v.at(0).items.at(0).s.toLatin1();
+            o.authorizationIdentifier = v.at(1).items.at(0).s;
+            if (v.at(2).kind == 'R') o.bound = bound2Of(v.at(2).items);
+            if (v.at(3).kind == 'R') { SmResumed r; r.h = quint32(v.at(3).items.at(0).n); r.previd = v.at(3).items.at(1).s; o.smResumed = r; }
+            if (v.at(4).kind == 'R') o.smFailed = smFailedOf(v.at(4).items);
+            if (v.at(5).kind == 'R') o.token = fastTokenOf(v.at(5).items);
+            return o;
+        }));
     t.push_back(nonza<Sasl::Auth>("SaslAuth", { "mechanism", "value" },
         [vBytes](const Sasl::Auth &o) { return Vals { vS(o.mechanism), vBytes(o.value) }; },
         [](const Vals &v) { Sasl::Auth o; o.mechanism = v.at(0).s; o.value = v.at(1).s.toLatin1(); return o; }));
@@ -477,6 +538,41 @@ static std::vector<ClassEntry> classTable()
     plain("TrustMessageElement", { "usage", "encryption", "keyOwners" },
         [ownerVals](const QXmppTrustMessageElement &o) { Vals items; for (auto &k : o.keyOwners()) items.push_back(vR(ownerVals(k))); return Vals { vS(o.usage()), vS(o.encryption()), vL(items) }; },
         [ownerOf](const Vals &v) { QXmppTrustMessageElement o; o.setUsage(v.at(0).s); o.setEncryption(v.at(1).s); for (auto &it : v.at(2).items) o.addKeyOwner(ownerOf(it.items)); return o; });
+    {
+        // XEP-0059: parse() looks for <set/> inside the element it is given; toXml() writes <set/> or nothing: held in <x>…</x>
+        auto optI = [](int i) { return i < 0 ? vO(false) : vO(true, quint64(i)); };
+        auto intOf = [](const Val &w) { const Val &o = w.items.at(0); return o.has ? int(o.n) : -1; };
+        auto optS = [](const QString &s) { return s.isNull() ? vA() : vR({ vS(s) }); };
+        auto strOf = [](const Val &w) { if (w.kind != 'R') return QString(); QString s = w.items.at(0).s; return s.isNull() ? QString("") : s; };
+        auto held = [](auto &o) { QByteArray out; QBuffer buf(&out); buf.open(QIODevice::WriteOnly); QXmlStreamWriter w(&buf); w.writeStartElement("x"); o.toXml(&w); w.writeEndElement(); return out; };
+        {
+            ClassEntry e; e.name = "ResultSetQuery"; e.fieldNames = { "set" }; e.skipRootTag = "set";
+            auto tv = [=](const QXmppResultSetQuery &q) { return Vals { vR({ vR({ optI(q.max()) }), optS(q.after()), optS(q.before()), vR({ optI(q.index()) }) }) }; };
+            auto fv = [=](const Vals &v) { QXmppResultSetQuery q; if (v.at(0).kind == 'R') { auto &f = v.at(0).items; q.setMax(intOf(f.at(0))); q.setAfter(strOf(f.at(1))); q.setBefore(strOf(f.at(2))); q.setIndex(intOf(f.at(3))); } return q; };
+            e.run = [=](const QDomElement &el, QByteArray &out, Vals &vals) { QXmppResultSetQuery q; q.parse(el); g_outsideModel = q.max() < -1 || q.index() < -1; out = held(q); vals = tv(q); return true; };
+            e.build = [=](const Vals &v, Vals &rep) { auto q = fv(v); rep = tv(q); return held(q); };
+            t.push_back(e);
+        }
+        {
+            ClassEntry e; e.name = "ResultSetReply"; e.fieldNames = { "set" }; e.skipRootTag = "set";
+            auto tv = [=](const QXmppResultSetReply &r) {
+                return r.isNull() ? Vals { vA() }
+                                  : Vals { vR({ (r.first().isNull() && r.index() < 0) ? vA() : vR({ optI(r.index()), vS(r.first()) }), optS(r.last()), vR({ optI(r.count()) }) }) };
+            };
+            auto fv = [=](const Vals &v) {
+                QXmppResultSetReply r;
+                if (v.at(0).kind == 'R') {
+                    auto &f = v.at(0).items;
+                    if (f.at(0).kind == 'R') { const Val &o = f.at(0).items.at(0); r.setIndex(o.has ? int(o.n) : -1); QString s = f.at(0).items.at(1).s; r.setFirst(s.isNull() ? QString("") : s); }
+                    r.setLast(strOf(f.at(1))); r.setCount(intOf(f.at(2)));
+                }
+                return r;
+            };
+            e.run = [=](const QDomElement &el, QByteArray &out, Vals &vals) { QXmppResultSetReply r; r.parse(el); g_outsideModel = r.index() < -1 || r.count() < -1; out = held(r); vals = tv(r); return true; };
+            e.build = [=](const Vals &v, Vals &rep) { auto r = fv(v); rep = tv(r); return held(r); };
+            t.push_back(e);
+        }
+    }
     {
         using M = QXmppStreamFeatures::Mode;
         auto vMode = [](M m) { return m == QXmppStreamFeatures::Disabled ? vA() : vR({ m == QXmppStreamFeatures::Required ? vR({}) : vA() }); };
@@ -546,7 +642,8 @@ static const char *TAG_POOL[] = { "bogus", "text", "enable", "enabled", "failed"
 static const char *ATTR_POOL[] = { "bogus", "resume", "max", "id", "h", "previd", "location", "var", "count", "invalidate", "tls-0rtt", "mechanism",
     "delivered", "desc", "jid", "type", "sid" };
 static const char *VALUE_POOL[] = { "", "true", "1", "0", "false", "TRUE", " true", "yes", "12", " 12 ", "+5", "-1", "007", "4294967295", "4294967296",
-    "18446744073709551615", "18446744073709551616", "99999999999999999999999999", "1 2", "1e3", "0x10", "1,000", "\xE2\x88\x92" "5", "\xEF\xBC\x91\xEF\xBC\x92",
+    "2024-02-29T12:00:00Z", "2024-02-29T12:00:00.5+01:00", "2023-02-29T12:00:00Z", "9999-12-31T23:59:59-01:00", "0000-01-01T00:00:00Z", "2024-02-29 12:00", "20240229T120000Z", "2024-02-29", "2024-02-29T24:00:00Z", "2024-02-29t12:00:00z",
+    "18446744073709551615", "18446744073709551616", "99999999999999999999999999", "1 2", "-5", "-0", "2147483647", "2147483648", "-2147483648", "-2147483649", "\xE2\x88\x92" "0", "1e3", "0x10", "1,000", "\xE2\x88\x92" "5", "\xEF\xBC\x91\xEF\xBC\x92",
     "\xE3\x80\x80" "7 ", "\t7\n", "<&>\"'", "]]>", "a\r\nb", "\xF0\x9F\x98\x80", "item-not-found" };
 #define POOL(p, rng) QString::fromUtf8(p[(rng).below(sizeof(p) / sizeof(p[0]))])
 // half of the garbled values are near-valid spellings of booleans / small numbers / enum names
@@ -654,10 +751,17 @@ static bool processDoc(const ClassEntry &c, const QByteArray &xml, const std::st
 {
     r.cin = canonPlain(xml);
     if (r.cin == "none") { stat("documents_not_wellformed"); return false; }
+    if (!c.skipRootTag.isEmpty()) {
+        QDomDocument probe;
+        if (probe.setContent(xml, false) && probe.documentElement().tagName() == c.skipRootTag) { stat("documents_outside_model_skipped"); return false; }
+    }
     printf("I %s %s %s\n", c.name.c_str(), what.c_str(), xml.left(160).toHex().constData()); fflush(stdout);
     bool wf = false;
+    g_outsideModel = false;
     r.accepted = runReal(c, xml, r.out, r.vals, wf);
     if (!wf) { stat("documents_not_wellformed"); return false; }
+    const bool outside = g_outsideModel;
+    if (outside) stat("documents_outside_model_oracle_only");
     stat("documents"); stat("documents:" + c.name);
     if (!r.accepted) {
         stat("rejected_by_type_check");
@@ -666,8 +770,10 @@ static bool processDoc(const ClassEntry &c, const QByteArray &xml, const std::st
         return true;
     }
     r.cout = canonWriter(r.out);
-    corr("codec-norm " + c.name + " " + r.cin, r.cout);
-    corr("codec-dec " + c.name + " " + r.cin, showVals(r.vals));
+    if (!outside) {
+        corr("codec-norm " + c.name + " " + r.cin, r.cout);
+        corr("codec-dec " + c.name + " " + r.cin, showVals(r.vals));
+    }
     // C02 oracle, model independent: one parse/serialize pass is a fixpoint
     QByteArray out2; Vals vals2; bool wf2 = false;
     bool acc2 = runReal(c, r.out, out2, vals2, wf2);
@@ -707,6 +813,21 @@ int main(int argc, char **argv)
     }
     auto gen = askDriver(ops);
 
+    // (0) corpus: minimized documents of past oracle failures, first
+    {
+        static const char *CORPUS[][2] = {
+            // count read with toInt() and no fallback: "unset" comes back as 0 on the second pass
+            { "ResultSetReply", "<x><set xmlns=\"http://jabber.org/protocol/rsm\"><first>a</first><count>-5</count></set></x>" },
+            // isNull() tests == -1, toXml tests >= 0: an empty <set/> is written, then nothing
+            { "ResultSetQuery", "<x><set xmlns=\"http://jabber.org/protocol/rsm\"><index>-11</index></set></x>" },
+            { "ResultSetReply", "<x><set xmlns=\"http://jabber.org/protocol/rsm\"><first index=\"-7\"/></set></x>" },
+            // tls-0rtt dropped by toXml before /repo e3c2af8
+            { "FastFeature", "<fast xmlns=\"urn:xmpp:fast:0\" tls-0rtt=\"true\"/>" },
+        };
+        for (auto &row : CORPUS)
+            for (auto &c : table)
+                if (c.name == row[0]) { corr("codec-reset " + c.name, "ok"); DocResult r; if (processDoc(c, QByteArray(row[1]), "corpus", r)) stat("corpus_documents"); }
+    }
     const int mutationsPerDoc = thorough ? 6 : 3;
     size_t g = 0;
     std::vector<std::string> fullDoc(table.size());  // the largest generated document of each class: spelling sweep, cross-class feeding
